@@ -14,7 +14,7 @@ use vh_core::{fnv_str, json, mix, shard::run_shards, stats::check, Args, Report,
 
 use crate::{
     common::{err_tokens, ind_s, take_leaf_log, LeafKind, SelOut},
-    shapes::{build, must_overflow, Pop, Shape},
+    shapes::{build, must_overflow, AnySel, Pop, Shape},
 };
 
 fn markers(k: usize) -> Vec<LeafKind> {
@@ -51,11 +51,19 @@ fn frequency_config(shape: Shape, weights: &[u32], draws: u64, seed: u64, rep: &
             return;
         }
     };
-    let mut used = vec![0u64; k];
     let mut rng = TraceRng::derive(seed, "C13", fnv_str(&cfg));
+    drive(sel.as_ref(), &pop, weights, draws, &cfg, &mut rng, rep);
+}
+
+/// `draws` selections through `sel`, whose members carry `weights`: per-draw delegation
+/// invariants, then the weight-ratio law.
+fn drive(sel: &dyn AnySel, pop: &Pop, weights: &[u32], draws: u64, cfg: &str, rng: &mut TraceRng, rep: &mut Report) {
+    let k = weights.len();
+    let total: u64 = weights.iter().map(|w| u64::from(*w)).sum();
+    let mut used = vec![0u64; k];
     for d in 0..draws {
         take_leaf_log();
-        let out = sel.sel(&pop, &mut rng);
+        let out = sel.sel(pop, rng);
         let log = take_leaf_log();
         rep.eval();
         if total == 0 {
@@ -96,7 +104,7 @@ fn frequency_config(shape: Shape, weights: &[u32], draws: u64, seed: u64, rep: &
         }
         used[m] += 1;
     }
-    rep.distinct(fnv_str(&cfg));
+    rep.distinct(fnv_str(cfg));
     if total == 0 {
         rep.count("exact:all-zero");
         return;
@@ -114,6 +122,55 @@ fn frequency_config(shape: Shape, weights: &[u32], draws: u64, seed: u64, rep: &
         rep.sample(|| json!({"kind": "weighted combination", "config": cfg, "uses_per_member": used, "draws": draws}));
     }
     rep.table_push("frequency_tables", json!({"config": cfg, "draws": draws, "members": rows}));
+}
+
+/// Histories on one combination value: select, extend, select again. Every stage must obey
+/// the weights it has *at that moment* (nothing about an earlier stage may be remembered).
+fn staged_config(dynamic: bool, weights: &[u32], draws: u64, seed: u64, rep: &mut Report) {
+    use ec_core::{operator::selector::dyn_weighted::DynWeighted, weighted::{with_weighted_item::WithWeightedItem, Weighted}};
+    use crate::common::Leaf;
+    let k = weights.len();
+    let pop = population(k);
+    let kinds = markers(k);
+    let l = |t: usize| Leaf::new(t, kinds[t].clone());
+    let name = if dynamic { "DynWeighted" } else { "with_item_and_weight chain" };
+    let mut rng = TraceRng::derive(seed, "C13-staged", fnv_str(&format!("{name}{weights:?}")));
+    let per = draws / k as u64;
+    let cfg = |stage: usize| format!("staged {name} weights={weights:?} after {} of {k} members (selected from between extensions)", stage + 1);
+    if dynamic {
+        let mut d: DynWeighted<Pop> = DynWeighted::new(l(0), weights[0] as usize);
+        drive(&d, &pop, &weights[..1], per, &cfg(0), &mut rng, rep);
+        for t in 1..k {
+            d = d.with_selector(l(t), weights[t] as usize);
+            drive(&d, &pop, &weights[..=t], per, &cfg(t), &mut rng, rep);
+        }
+    } else {
+        macro_rules! next {
+            ($prev:expr, $t:expr) => {{
+                match $prev.with_item_and_weight(l($t), weights[$t]) {
+                    Ok(s) => {
+                        drive(&s, &pop, &weights[..=$t], per, &cfg($t), &mut rng, rep);
+                        s
+                    }
+                    Err(e) => {
+                        rep.eval();
+                        rep.violation("C13/construction-rejected", || json!({"config": cfg($t), "error": format!("{e:?}")}));
+                        return;
+                    }
+                }
+            }};
+        }
+        let s0 = Weighted::new(l(0), weights[0]);
+        drive(&s0, &pop, &weights[..1], per, &cfg(0), &mut rng, rep);
+        if k < 2 { return; }
+        let s1 = next!(s0, 1);
+        if k < 3 { return; }
+        let s2 = next!(s1, 2);
+        if k < 4 { return; }
+        let s3 = next!(s2, 3);
+        if k < 5 { return; }
+        let _s4 = next!(s3, 4);
+    }
 }
 
 fn permutations_of(w: &[u32], g: &mut Xo, max: usize) -> Vec<Vec<u32>> {
@@ -185,6 +242,20 @@ pub fn run(args: &Args) -> i32 {
         frequency_config(*shape, w, draws, mix(args.seed, i as u64), &mut rep);
         rep
     });
+    let staged: Vec<(bool, Vec<u32>)> = [
+        vec![1u32, 1, 2, 4], vec![0, 3, 0, 1], vec![0, 0, 5], vec![2, 0, 0, 0, 7], vec![5, 1], vec![0, 0, 0, 1, 0], vec![1, 1000, 1],
+    ]
+    .into_iter()
+    .flat_map(|w| [(true, w.clone()), (false, w)])
+    .collect();
+    let st = run_shards(staged.len(), args.threads, 16 << 20, |i| {
+        let mut rep = Report::new();
+        let (dynamic, w) = &staged[i];
+        staged_config(*dynamic, w, draws, mix(args.seed, 7_000 + i as u64), &mut rep);
+        rep.count("staged-histories");
+        rep
+    });
+    rep.merge(st);
     rep.table("statistical_monitor", json!({
         "draws_per_configuration": draws,
         "per_category_false_alarm_bound": vh_core::stats::DELTA,
@@ -194,7 +265,7 @@ pub fn run(args: &Args) -> i32 {
     rep.finish(
         args,
         "exploration",
-        "13 nestings (single, left chains of 2..5, right-nested 3/4, balanced 4, mixed 5, dynamic lists of 1/2/3/5) x weight multisets incl. zeros, all-zero, 2^31 / u32::MAX boundaries and overflowing totals, in several permutations; distinct_nontrivial = distinct (nesting, weight vector) configurations",
+        "13 nestings (single, left chains of 2..5, right-nested 3/4, balanced 4, mixed 5, dynamic lists of 1/2/3/5) x weight multisets incl. zeros, all-zero, 2^31 / u32::MAX boundaries and overflowing totals, in several permutations; staged histories (select, extend with another member, select again) on DynWeighted lists and with_item_and_weight chains, each stage judged against the weights it has at that moment; distinct_nontrivial = distinct (nesting, weight vector) configurations",
         false,
         &[
             "members are marker selectors that return a distinct individual and log their call",
